@@ -7,7 +7,7 @@
    sizes and all data-member registers are exactly as before (strong guarantee incl. "nothing leaked"). *)
 From Coq Require Import List Arith Lia Bool ZArith.
 From MomoCommon Require Import GenPrelude.
-From C04 Require Gen_OpenN1_exn Gen_Open2N2_exn OpenExn.
+From C04 Require Gen_OpenN1_exn Gen_Open2N2_exn OpenExn Gen_LimP4_exn LimP4Exn OpenRefine Gen_ArrReset_exn ArrResetExn.
 From C04 Require Import Effects ObjMgr ArrayData Ctor KeyValue Tree Relocator Replace PlanWf MultiMap SetCount HashGrow Shifter.
 Import ListNotations.
 
@@ -587,3 +587,134 @@ Theorem gen_open2n2_addcrt_throwing :
     Gen_Open2N2_exn.AddCrt st sh hp true hashCode logBucketCount probe newItem = GenPrelude.Ok (false, st, sh, hp).
 Proof. exact OpenExn.o2_addcrt_throwing. Qed.
 Print Assumptions gen_open2n2_addcrt_throwing.
+
+(* ---- grow round 2 ---------------------------------------------------------------------------------------------------------------
+   (1) refinement: the GENERATED BucketOpenN1<mc, rv>::AddCrt (count byte arithmetic) against the hand model's rCount register.  One step
+   of the generated code and one step of Ctor.open_bucket_add on corresponding states: same outcome (completed <-> Ok, not completed <->
+   Exn), the count decoded from the bytes equals rCount afterwards, and on failure NEITHER side changed (bytes identical, heap identical) --
+   this is what connects the `fails` theorems above to the container-level strong-guarantee theorems. *)
+Theorem gen_openn1_addcrt_count :
+  forall (rv : bool) (mc : Z), (1 <= mc <= 7)%Z -> forall (d : Z -> Z) (hc ni : Z),
+    OpenRefine.good rv mc d -> (0 <= OpenRefine.cnt rv mc d < mc)%Z -> (0 <= hc < 2 ^ 64)%Z ->
+    exists d', Gen_OpenN1_exn.AddCrt rv mc d false hc ni = GenPrelude.Ok (true, d') /\ OpenRefine.good rv mc d' /\
+               OpenRefine.cnt rv mc d' = (OpenRefine.cnt rv mc d + 1)%Z.
+Proof. exact OpenRefine.gen_add_count. Qed.
+Print Assumptions gen_openn1_addcrt_count.
+
+Theorem gen_openn1_refines_open_bucket_add :
+  forall rv mc d hc ni arg v f r s,
+    (1 <= mc <= 7)%Z -> OpenRefine.good rv mc d -> (0 <= OpenRefine.cnt rv mc d < mc)%Z -> (0 <= hc < 2 ^ 64)%Z ->
+    Z.of_nat (regs (hp s) rCount) = OpenRefine.cnt rv mc d -> valid (hp s) arg = true ->
+    valid (hp s) (regs (hp s) rItems, regs (hp s) rCount) = true ->
+    mem (hp s) arg = Live v -> mem (hp s) (regs (hp s) rItems, regs (hp s) rCount) = Raw -> sched s = f :: r ->
+    exists d' s', Gen_OpenN1_exn.AddCrt rv mc d f hc ni = GenPrelude.Ok (negb f, d') /\
+      open_bucket_add (creator_copy arg) s = ((if f then Exn else Effects.Ok tt), s') /\
+      Z.of_nat (regs (hp s') rCount) = OpenRefine.cnt rv mc d' /\ (f = true -> d' = d /\ hp s' = hp s).
+Proof. exact OpenRefine.open_bucket_refinement. Qed.
+Print Assumptions gen_openn1_refines_open_bucket_add.
+
+(* (2) GENERATED BucketLimP4<.., 4, .., useHashCodePartGetter>::pvAdd0 / pvAdd / AddCrt (HashBucketLimP4.h:309-356, 472-495).  Failure flags:
+   the BucketMemory constructor (pool allocation, bad_alloc), the item creator, ItemTraits::RelocateCreate.  pvAdd0 / pvAdd publish last. *)
+Theorem gen_limp4_pvadd0_exn_unchanged :
+  forall sh p st cf hc mf mem items sh' p' st',
+    Gen_LimP4_exn.pvAdd0_min sh p st cf hc mf mem items = GenPrelude.Ok (false, sh', p', st') ->
+    (mf = true \/ cf = true) /\ sh' = sh /\ p' = p /\ st' = st.
+Proof. exact LimP4Exn.pvAdd0_min_incomplete. Qed.
+Print Assumptions gen_limp4_pvadd0_exn_unchanged.
+
+Theorem gen_limp4_pvadd0max_exn_unchanged :
+  forall sh p st cf hc mf mem items sh' p' st',
+    Gen_LimP4_exn.pvAdd0_max sh p st cf hc mf mem items = GenPrelude.Ok (false, sh', p', st') ->
+    (mf = true \/ cf = true) /\ sh' = sh /\ p' = p /\ st' = st.
+Proof. exact LimP4Exn.pvAdd0_max_incomplete. Qed.
+Print Assumptions gen_limp4_pvadd0max_exn_unchanged.
+
+Theorem gen_limp4_pvadd1_exn_unchanged :
+  forall sh p st hc items mf rf mem newItems sh' p' st',
+    Gen_LimP4_exn.pvAdd_1 sh p st hc items mf rf mem newItems = GenPrelude.Ok (false, sh', p', st') ->
+    (mf = true \/ rf = true) /\ sh' = sh /\ p' = p /\ st' = st.
+Proof. exact LimP4Exn.pvAdd_1_incomplete. Qed.
+Print Assumptions gen_limp4_pvadd1_exn_unchanged.
+
+Theorem gen_limp4_pvadd2_exn_unchanged :
+  forall sh p st hc items mf rf mem newItems sh' p' st',
+    Gen_LimP4_exn.pvAdd_2 sh p st hc items mf rf mem newItems = GenPrelude.Ok (false, sh', p', st') ->
+    (mf = true \/ rf = true) /\ sh' = sh /\ p' = p /\ st' = st.
+Proof. exact LimP4Exn.pvAdd_2_incomplete. Qed.
+Print Assumptions gen_limp4_pvadd2_exn_unchanged.
+
+Theorem gen_limp4_pvadd3_exn_unchanged :
+  forall sh p st hc items mf rf mem newItems sh' p' st',
+    Gen_LimP4_exn.pvAdd_3 sh p st hc items mf rf mem newItems = GenPrelude.Ok (false, sh', p', st') ->
+    (mf = true \/ rf = true) /\ sh' = sh /\ p' = p /\ st' = st.
+Proof. exact LimP4Exn.pvAdd_3_incomplete. Qed.
+Print Assumptions gen_limp4_pvadd3_exn_unchanged.
+
+(* the dispatcher AddCrt writes the hash-PROBE byte of the slot being filled before the throwing step: the pointer state is unchanged, any
+   byte that differs lies strictly above the fill index and holds an `empty` marker (>= 128), and one of the failure flags is set *)
+Theorem gen_limp4_addcrt_exn :
+  forall hashCount minMemPoolIndex : Z, (4 <= hashCount <= 8)%Z ->
+  forall sh p st cf hc lbc pr mf0 m0 i0 mfx mx ix mf3 rf3 m3 n3 mf2 rf2 m2 n2 mf1 rf1 m1 n1 sh' p' st',
+    Gen_LimP4_exn.AddCrt hashCount minMemPoolIndex sh p st cf hc lbc pr mf0 m0 i0 mfx mx ix mf3 rf3 m3 n3 mf2 rf2 m2 n2 mf1 rf1 m1 n1
+      = GenPrelude.Ok (false, sh', p', st') ->
+    p' = p /\ st' = st /\ LimP4Exn.differs_above sh sh' (LimP4Exn.fill_index sh p st) /\
+    (cf = true \/ mf0 = true \/ mfx = true \/ mf1 = true \/ rf1 = true \/ mf2 = true \/ rf2 = true \/ mf3 = true \/ rf3 = true).
+Proof. exact LimP4Exn.AddCrt_incomplete. Qed.
+Print Assumptions gen_limp4_addcrt_exn.
+
+(* hence, for a well-formed bucket (empty markers at and above the count): count, short hashes of the occupied slots and pointer state are
+   as before, and the bucket is still well-formed *)
+Theorem gen_limp4_addcrt_failure_keeps_bucket :
+  forall hashCount minMemPoolIndex : Z, (4 <= hashCount <= 8)%Z ->
+  forall sh p st cf hc lbc pr mf0 m0 i0 mfx mx ix mf3 rf3 m3 n3 mf2 rf2 m2 n2 mf1 rf1 m1 n1 sh' p' st',
+    LimP4Exn.bucket_wf sh p st ->
+    Gen_LimP4_exn.AddCrt hashCount minMemPoolIndex sh p st cf hc lbc pr mf0 m0 i0 mfx mx ix mf3 rf3 m3 n3 mf2 rf2 m2 n2 mf1 rf1 m1 n1
+      = GenPrelude.Ok (false, sh', p', st') ->
+    p' = p /\ st' = st /\ Gen_LimP4_exn.pvGetCount sh' p' st' = Gen_LimP4_exn.pvGetCount sh p st /\
+    (forall i, (i < Gen_LimP4_exn.pvGetCount sh p st)%Z -> sh' i = sh i) /\ LimP4Exn.bucket_wf sh' p' st'.
+Proof. exact LimP4Exn.AddCrt_failure_keeps_bucket. Qed.
+Print Assumptions gen_limp4_addcrt_failure_keeps_bucket.
+
+(* non-vacuity: an allocation failure on the empty bucket is reached and returns the bucket unchanged; without failures the add completes *)
+Theorem gen_limp4_addcrt_alloc_failure_reached :
+  forall cf,
+  match Gen_LimP4_exn.AddCrt 6 2 (fun _ => 255%Z) 0 1 cf 12345 3 0 true 0 0 true 0 0 false false 0 0 false false 0 0 false false 0 0 with
+  | GenPrelude.Ok (false, sh', 0%Z, 1%Z) => sh' 0%Z = 255%Z /\ sh' 1%Z = 255%Z | _ => False end.
+Proof. exact LimP4Exn.AddCrt_alloc_failure_reached. Qed.
+Print Assumptions gen_limp4_addcrt_alloc_failure_reached.
+
+Theorem gen_limp4_addcrt_completes_reached :
+  match Gen_LimP4_exn.AddCrt 6 2 (fun _ => 255%Z) 0 1 false 12345 3 0 false 4096 4096 false 0 0 false false 0 0 false false 0 0 false false 0 0 with
+  | GenPrelude.Ok (true, sh', p', st') => Gen_LimP4_exn.pvGetCount sh' p' st' = 1%Z /\ p' = 4096%Z | _ => False end.
+Proof. exact LimP4Exn.AddCrt_completes_reached. Qed.
+Print Assumptions gen_limp4_addcrt_completes_reached.
+
+(* (3) GENERATED Array<.., ArraySettings<N>>::Data::pvReset / Reset (Array.h:316-343, 462-483): mCapacity and the internal buffer share a union
+   (one field, "union_fields"); the creator's writes make that word arbitrary (`clob`), the translated catch handler restores it *)
+Theorem gen_array_pvreset_exn_restores_capacity :
+  forall items cnt cap count cf ia clob a items' cnt' cap',
+    Gen_ArrReset_exn.pvReset items cnt cap count cf ia clob a = GenPrelude.Ok (false, items', cnt', cap') ->
+    cf = true /\ items' = items /\ cnt' = cnt /\ cap' = cap.
+Proof. exact ArrResetExn.pvReset_incomplete. Qed.
+Print Assumptions gen_array_pvreset_exn_restores_capacity.
+
+Theorem gen_array_reset_exn_unchanged :
+  forall ic items cnt cap capacity count cf af newItems ia clob a items' cnt' cap',
+    Gen_ArrReset_exn.Reset ic items cnt cap capacity count cf af newItems ia clob a = GenPrelude.Ok (false, items', cnt', cap') ->
+    (cf = true \/ af = true) /\ items' = items /\ cnt' = cnt /\ cap' = cap.
+Proof. exact ArrResetExn.Reset_incomplete. Qed.
+Print Assumptions gen_array_reset_exn_unchanged.
+
+(* non-vacuity: with a completing creator the union word IS the clobber value (so the handler's assignment is what the first theorem rests on),
+   and the throwing case is reached *)
+Theorem gen_array_pvreset_completes_clobbered :
+  forall items cnt cap count ia clob a, items <> ia ->
+    Gen_ArrReset_exn.pvReset items cnt cap count false ia clob a = GenPrelude.Ok (true, a, count, clob).
+Proof. exact ArrResetExn.pvReset_completes. Qed.
+Print Assumptions gen_array_pvreset_completes_clobbered.
+
+Theorem gen_array_pvreset_throwing :
+  forall items cnt cap count ia clob a, items <> ia ->
+    Gen_ArrReset_exn.pvReset items cnt cap count true ia clob a = GenPrelude.Ok (false, items, cnt, cap).
+Proof. exact ArrResetExn.pvReset_throwing. Qed.
+Print Assumptions gen_array_pvreset_throwing.
